@@ -3,6 +3,8 @@ package main
 import (
 	"bytes"
 	"fmt"
+	"github.com/la5nta/wl2k-go/fbb"
+	"os"
 )
 
 // frameSpans finds the SOH..EOT byte ranges in a sender's wire by following the framing rules.
@@ -302,6 +304,52 @@ func init() {
 				}
 			}
 		}
+		// gzip transfers ('D' proposals, GZIP_EXPERIMENT=1 on both sides): oracle only, the model does not cover
+		// them. Random attachments end up in stored deflate blocks, so a +d/-d pair leaves the deflate stream
+		// well formed and only gzip's CRC-32/size trailer can tell; CRC-32 catches every change of two bytes.
+		os.Setenv("GZIP_EXPERIMENT", "1")
+		for i := 0; i < c.Budget(2, 12) && c.TimeLeft(); i++ {
+			sa, sb := newSpec("LA5NTA", "N0CALL", false), newSpec("N0CALL", "LA5NTA", true)
+			sa.ihash, sb.ihash = false, false
+			m := genMessage(c.Rng, sa.mycall, sb.mycall, 300)
+			blob := make([]byte, 600+c.Rng.Intn(1500))
+			c.Rng.Read(blob)
+			m.AddFile(fbb.NewFile("blob.bin", blob))
+			sa.outbox = append(sa.outbox, newOutMsg(m))
+			clean := runPairImpl(sa, sb, c.Rng.Int63(), -1, -1)
+			spans := frameSpans(clean.a.wire)
+			if clean.a.err != nil || clean.b.err != nil || len(spans) == 0 || !bytes.Contains(clean.a.wire, []byte("FD EM ")) {
+				c.Note("gzip family: no clean 'D' transfer (errs %v / %v)", clean.a.err, clean.b.err)
+				continue
+			}
+			lo, hi := spans[0][0], spans[0][1]
+			for k := 0; k < c.Budget(25, 120) && c.TimeLeft(); k++ {
+				i1 := lo + 40 + c.Rng.Intn(max(hi-lo-60, 1))
+				i2 := i1 + 1 + c.Rng.Intn(3)
+				if i2 >= hi-2 || clean.a.wire[i1] == 2 || clean.a.wire[i2] == 2 {
+					continue
+				}
+				d := byte(1 + c.Rng.Intn(255))
+				edits := map[int]edit{i1: {'s', []byte{clean.a.wire[i1] + d}}, i2: {'s', []byte{clean.a.wire[i2] - d}}}
+				pr := runPairOpts(sa, sb, c.Rng.Int63(), -1, -1, edits, nil)
+				rep := scenarioReplay(sa, sb, map[string]interface{}{"alteration": "gzip-pair", "env": "GZIP_EXPERIMENT=1", "edits": fmt.Sprint(edits), "errA": fmt.Sprint(pr.a.err), "errB": fmt.Sprint(pr.b.err)})
+				got := false
+				for _, data := range pr.b.tw.inbox {
+					if bytes.Equal(data, sa.outbox[0].data) {
+						got = true
+					} else {
+						c.Violate("C04:damaged-delivered:gzip-pair", "a gzip transfer altered in transit (a +d/-d pair that keeps the block checksum) was handed to the inbound handler as a good message", rep)
+					}
+				}
+				for mid, rejected := range pr.a.tw.sent {
+					if !rejected && !got {
+						c.Violate("C04:damaged-marked-sent:gzip-pair", "the sender recorded message "+mid+" as sent although the receiver's handler never got it intact (gzip transfer)", rep)
+					}
+				}
+				c.Res.Distribution["gzip-pair(oracle only)"]++
+			}
+		}
+		os.Unsetenv("GZIP_EXPERIMENT")
 		c.Compare(cases)
 	})
 }
